@@ -279,3 +279,41 @@ def usim_program(rng):
                 left -= len(body) + 1
         return out[:n + 4]
     return {'start': 0, 'roots': [ops(rng.randint(1, 6), 0, False) for _ in range(BIG['NRoots'])]}
+
+
+# ---------------------------------------------------------------------------------------------------------------
+# many waiters on ONE notification, some of which leave before they are served
+def waiters_program(rng, kind=None):
+    """3..6 tasks queue up for one lock / one queue / one flag while the root holds it back; some give up on their own
+    (an until-block around the wait that expires) or are cancelled by the root, in any position of the waiting list;
+    then the root serves the rest.  The order in which the remaining waiters are served is what the monitors judge
+    (ObsC09 grant_order, ObsC10 receiver_order): whoever leaves must not disturb the order of those who stay."""
+    kind = kind or rng.choice(['lock', 'queue'])
+    n = rng.randint(3, 6)
+    root = [{'op': 'open', 'kind': 'scope', 'catch': True}]
+    if kind == 'lock':
+        root.append({'op': 'enter', 'l': 1})
+    for _ in range(n):
+        if kind == 'lock':
+            body = [{'op': 'enter', 'l': 1}] + [{'op': 'instant'}] * rng.randint(0, 1) + [{'op': 'leave'}]
+        else:
+            body = [{'op': 'get', 'q': 1}]
+        if rng.random() < 0.3:          # this waiter gives up by itself after one time unit
+            body = [{'op': 'open', 'kind': 'until_d', 'catch': True, 'd': 1}] + body + [{'op': 'leave'}]
+        root.append({'op': 'do', 's': -1, 'vol': rng.random() < 0.15, 'd': 0, 'fin': 'none', 'prog': body})
+        if rng.random() < 0.2:
+            root.append({'op': 'instant'})
+    root.append({'op': 'instant'})       # everybody has asked by now
+    for j in rng.sample(range(1, n + 1), rng.randint(0, 2)):
+        root.append({'op': 'cancel', 'k': -j})
+    if rng.random() < 0.5:
+        root.append({'op': 'sleep', 'd': rng.choice([1, 2])})       # the impatient ones have left by now
+    if kind == 'lock':
+        root.append({'op': 'leave'})     # give the lock up: it is handed from waiter to waiter
+    else:
+        for _ in range(n):
+            root.append({'op': 'put', 'q': 1})
+            if rng.random() < 0.3:
+                root.append({'op': 'cancel', 'k': -rng.randint(1, n)})
+    root.append({'op': 'leave'})
+    return {'start': 0, 'roots': [root]}
